@@ -93,6 +93,7 @@ type simPeer struct {
 	rxOpenRaw []byte   // gobgp's OPEN as received on the current session (whole message)
 	sentLog   []sentRec // every UPDATE handed to the transport, in order (monitoring-record oracle)
 	sessEnd   map[int]time.Duration // session number -> instant this side saw it end
+	eorSent   map[wFamily]time.Duration // End-of-RIB markers this peer sent on the current session
 
 	// hooks for family-specific monitors
 	onMsg func(p *simPeer, m *wMsg)
@@ -376,6 +377,7 @@ func (p *simPeer) sessionUp(b *simConn, open *wOpenMsg) {
 	p.view = map[viewKey]*viewRoute{}
 	p.eor = map[wFamily]int{}
 	p.sent = map[viewKey]*annRoute{}
+	p.eorSent = map[wFamily]time.Duration{}
 	p.downCh = make(chan struct{})
 	p.kaStop = make(chan struct{})
 	p.downWhy = ""
